@@ -40,19 +40,19 @@ let c10_f64 (line : string) : string =
   | _ -> failwith "c10_f64 line"
 
 (* type descriptor: wrappers 'l' (List) / 'L' (NonNullList), then 'n' (Named) / 'N' (NonNullNamed), then the name *)
-let rec tref_of_desc (d : string) (i : int) : tref =
+let rec tref_of_desc (d : string) (i : int) : ty =
   match d.[i] with
-  | 'l' -> TrList (tref_of_desc d (i+1))
-  | 'L' -> TrNonNullList (tref_of_desc d (i+1))
-  | 'n' -> TrNamed (str_of_ascii (String.sub d (i+1) (String.length d - i - 1)))
-  | 'N' -> TrNonNullNamed (str_of_ascii (String.sub d (i+1) (String.length d - i - 1)))
+  | 'l' -> TList (tref_of_desc d (i+1))
+  | 'L' -> TNonNullList (tref_of_desc d (i+1))
+  | 'n' -> TNamed (str_of_ascii (String.sub d (i+1) (String.length d - i - 1)))
+  | 'N' -> TNonNullNamed (str_of_ascii (String.sub d (i+1) (String.length d - i - 1)))
   | _ -> failwith "type descriptor"
-let rec desc_of_tref (t : tref) : string =
+let rec desc_of_tref (t : ty) : string =
   match t with
-  | TrList i -> "l" ^ desc_of_tref i
-  | TrNonNullList i -> "L" ^ desc_of_tref i
-  | TrNamed n -> "n" ^ ascii_of_str n
-  | TrNonNullNamed n -> "N" ^ ascii_of_str n
+  | TList i -> "l" ^ desc_of_tref i
+  | TNonNullList i -> "L" ^ desc_of_tref i
+  | TNamed n -> "n" ^ ascii_of_str n
+  | TNonNullNamed n -> "N" ^ ascii_of_str n
 
 let rec nat_of_int (i : int) : nat = if i = 0 then O else S (nat_of_int (i - 1))
 
